@@ -18,7 +18,8 @@
 (*   ot    "null" "bool" "int" "float" "date" "datetime" "str",            *)
 (*         "error" (a YAML error) or "exception" (any other exception);    *)
 (*   ov    digest:  int [s, m]   bool [b]   date [y, m, d]                 *)
-(*         datetime [y, mo, d, h, mi, s, us, aware, off]  (off in seconds) *)
+(*         datetime [y, mo, d, h, mi, s, us, aware, off, offus]            *)
+(*               off = utcoffset() in whole seconds, offus its microseconds *)
 (*         float [k |-> "nan"] | [k |-> "inf", s] |                        *)
 (*               [k |-> "num", neg, lo, hi, loin, hiin, wlo, whi]          *)
 (*               lo..hi: the exact rounding interval of the binary64 value *)
@@ -46,8 +47,16 @@ Instant(y, m, d, secs, off) == LET t == secs - off + 2 * 86400 IN <<Days(y, m, d
 OffSeconds(tz) == CASE tz[1] = "off" -> (IF tz[2] = "-" THEN 0 - 1 ELSE 1) * (tz[3] * 3600 + tz[4] * 60)
                     [] OTHER -> 0
 
+\* A YAML 1.1 zone is  Z | [-+]hh?(:mm)? : hours and minutes.  The UTC offset of an aware datetime can be written in a
+\* timestamp text exactly when it is a whole number of minutes (Python allows seconds and microseconds as well).
+Expressible(ov) == ov.off % 60 = 0 /\ ov.offus = 0
+
 \* does the value hv of the repository equal the Python value (ot, ov)?   "" = yes, else the reason
-ValueIs(hv, ot, ov) ==
+\* A datetime is the local calendar fields *and* the UTC offset the text gives: "21:59:43 +00:30" and "21:29:43Z" are
+\* the same instant but not the same value (hour, minute, utcoffset() differ).  load: the constructed datetime has the
+\* offset of the text.  dump: the text has the offset of the value wherever a timestamp can express it; for an offset
+\* with seconds there is no such text, and the instant alone is held.
+ValueIs(kind, hv, ot, ov) ==
   CASE hv[1] = "null" -> IF ot = "null" THEN "" ELSE "type"
     [] hv[1] = "bool" -> IF ot # "bool" THEN "type" ELSE IF ov.b = hv[2] THEN "" ELSE "value"
     [] hv[1] = "int"  -> IF ot # "int" THEN "type" ELSE IF ov.s = hv[2] /\ ov.m = hv[3] THEN "" ELSE "value"
@@ -66,6 +75,8 @@ ValueIs(hv, ot, ov) ==
          ELSE IF ov.aware # (hv[9][1] # "none") THEN "zone awareness"
          ELSE IF Instant(ov.y, ov.mo, ov.d, ov.h * 3600 + ov.mi * 60 + ov.s, ov.off)
                  # Instant(hv[2], hv[3], hv[4], hv[5] * 3600 + hv[6] * 60 + hv[7], OffSeconds(hv[9])) THEN "instant"
+         ELSE IF ov.aware /\ (kind = "load" \/ Expressible(ov))
+                 /\ (ov.off # OffSeconds(hv[9]) \/ ov.offus # 0) THEN "utc offset"
          ELSE IF ov.us = hv[8] THEN "" ELSE "microsecond"
     [] hv[1] = "str" -> IF ot = "str" THEN "" ELSE "type"          \* the harness compares the characters
     [] OTHER -> "type"
@@ -80,7 +91,7 @@ Denotes(t) ==
        IN  IF hv[1] \in {"undefined", "merge", "value"}
            THEN (IF t.kind = "load" THEN "" ELSE "dumped text has no value")     \* a YAML error or any value will do
            ELSE IF t.ot = "error" THEN "YAML error, text has a value"
-           ELSE ValueIs(hv, t.ot, t.ov)
+           ELSE ValueIs(t.kind, hv, t.ot, t.ov)
 
 Init == tid \in 1 .. Len(Traces)
 Next == FALSE /\ tid' = tid
